@@ -76,35 +76,62 @@ func (e *enc) bigint(b []byte) {
 }
 
 // intBytes: the big-endian bytes of an integer that needs exactly n bytes (n = 0: zero).
-func intBytes(n int) []byte {
+func intBytes(n int) []byte { return intBytesTop(n, 0) }
+
+// intBytesTop: the same with a chosen first (most significant) byte; 0 stands for 0x80. The
+// byte length of an integer is a function of its bit length, and a check that derives it by
+// rounding (BitLen/8, (BitLen+8)/8, BitLen >= 8*limit ...) is wrong only for some first bytes:
+// 0x01 (bit length 8n-7, the smallest n byte integer) and 0x7f (8n-1) expose rounding down,
+// 0x80 and 0xff (8n) rounding up.
+func intBytesTop(n int, top byte) []byte {
 	if n == 0 {
 		return nil
 	}
+	if top == 0 {
+		top = 0x80
+	}
 	b := make([]byte, n)
-	b[0] = 0x80
-	b[n-1] = 0x01
+	if n > 1 {
+		b[n-1] = 0x01
+	}
+	b[0] = top
 	return b
 }
 
-// allocDim describes an allocation: dimensions and the byte length of balance [0][0] and of
-// the first balance of the first sub-allocation (all other balances are 1).
+// allocDim describes an allocation: dimensions and the byte length (and first byte, 0 = 0x80)
+// of balance [0][0] and of the first balance of the first sub-allocation (all other balances are 1).
 type allocDim struct {
 	assets, parts, locked int
 	balLen, subBalLen     int
+	balTop, subBalTop     byte
 }
 
 func (d allocDim) bal(i, j int) []byte {
 	if i == 0 && j == 0 && d.balLen > 0 {
-		return intBytes(d.balLen)
+		return intBytesTop(d.balLen, d.balTop)
 	}
 	return []byte{1}
 }
 
 func (d allocDim) subBal(k, i int) []byte {
 	if k == 0 && i == 0 && d.subBalLen > 0 {
-		return intBytes(d.subBalLen)
+		return intBytesTop(d.subBalLen, d.subBalTop)
 	}
 	return []byte{1}
+}
+
+// firstBytes are the boundary integers of family (4) beyond the 0x80.. ones of the basic
+// pairs: exactly at the limit (accepted) and one byte beyond it (rejected), per first byte.
+var firstBytes = []struct {
+	over bool
+	top  byte
+}{{false, 0x01}, {false, 0xff}, {true, 0x01}, {true, 0x7f}, {true, 0xff}}
+
+func topSuffix(over bool, top byte) (suffix, expect string) {
+	if over {
+		return fmt.Sprintf("(first-byte=%02x)@limit+1", top), "reject"
+	}
+	return fmt.Sprintf("(first-byte=%02x)@limit", top), "accept"
 }
 
 func subID(k int) channel.ID { return cat.ID32(fmt.Sprintf("limit/sub/%d", k)) }
@@ -253,14 +280,45 @@ func stateWith(a *channel.Allocation) *channel.State {
 }
 
 func paramsWith(parts []map[wallet.BackendID]wallet.Address, nonceLen int) *channel.Params {
-	return channel.NewParamsUnsafe(60, parts, channel.NoApp(), new(big.Int).SetBytes(intBytes(nonceLen)), true, false, cat.Aux(1))
+	return paramsWithTop(parts, nonceLen, 0)
+}
+
+// paramsWithTop: the nonce has nonceLen bytes and the given first byte (0 = 0x80).
+func paramsWithTop(parts []map[wallet.BackendID]wallet.Address, nonceLen int, top byte) *channel.Params {
+	return channel.NewParamsUnsafe(60, parts, channel.NoApp(), new(big.Int).SetBytes(intBytesTop(nonceLen, top)), true, false, cat.Aux(1))
+}
+
+func baseProposalWith(init *channel.Allocation, fa channel.Balances) client.BaseChannelProposal {
+	return client.BaseChannelProposal{ProposalID: cat.ID32("limit/prop"), ChallengeDuration: 60, NonceShare: cat.ID32("limit/ns"),
+		App: channel.NoApp(), InitData: channel.NoData(), InitBals: init, FundingAgreement: fa, Aux: cat.Aux(0)}
 }
 
 func proposalWith(init *channel.Allocation, fa channel.Balances, peers []map[wallet.BackendID]wire.Address) *client.LedgerChannelProposalMsg {
-	return &client.LedgerChannelProposalMsg{
-		BaseChannelProposal: client.BaseChannelProposal{ProposalID: cat.ID32("limit/prop"), ChallengeDuration: 60, NonceShare: cat.ID32("limit/ns"),
-			App: channel.NoApp(), InitData: channel.NoData(), InitBals: init, FundingAgreement: fa, Aux: cat.Aux(0)},
-		Participant: cat.WalletMap(cat.MapOne0, 1), Peers: peers}
+	return &client.LedgerChannelProposalMsg{BaseChannelProposal: baseProposalWith(init, fa), Participant: cat.WalletMap(cat.MapOne0, 1), Peers: peers}
+}
+
+func subProposalWith(init *channel.Allocation, fa channel.Balances) *client.SubChannelProposalMsg {
+	return &client.SubChannelProposalMsg{BaseChannelProposal: baseProposalWith(init, fa), Parent: cat.ID32("limit/subparent")}
+}
+
+func virtualProposalWith(init *channel.Allocation, fa channel.Balances) *client.VirtualChannelProposalMsg {
+	return &client.VirtualChannelProposalMsg{BaseChannelProposal: baseProposalWith(init, fa), Proposer: cat.WalletMap(cat.MapOne0, 1), Peers: realPeers(2),
+		Parents: []channel.ID{cat.ID32("limit/vparent/0"), cat.ID32("limit/vparent/1")}, IndexMaps: [][]channel.Index{{0, 1}, {1, 0}}}
+}
+
+// proposalKinds: the three proposal messages share BaseChannelProposal (initial balances and
+// funding agreement); pbBase finds it in a parsed protobuf envelope.
+var proposalKinds = []struct {
+	name   string
+	mk     func(init *channel.Allocation, fa channel.Balances) wire.Msg
+	pbBase func(env *protobuf.Envelope) *protobuf.BaseChannelProposal
+}{
+	{"LedgerChannelProposalMsg", func(init *channel.Allocation, fa channel.Balances) wire.Msg { return proposalWith(init, fa, realPeers(2)) },
+		func(env *protobuf.Envelope) *protobuf.BaseChannelProposal { return env.GetLedgerChannelProposalMsg().GetBaseChannelProposal() }},
+	{"SubChannelProposalMsg", func(init *channel.Allocation, fa channel.Balances) wire.Msg { return subProposalWith(init, fa) },
+		func(env *protobuf.Envelope) *protobuf.BaseChannelProposal { return env.GetSubChannelProposalMsg().GetBaseChannelProposal() }},
+	{"VirtualChannelProposalMsg", func(init *channel.Allocation, fa channel.Balances) wire.Msg { return virtualProposalWith(init, fa) },
+		func(env *protobuf.Envelope) *protobuf.BaseChannelProposal { return env.GetVirtualChannelProposalMsg().GetBaseChannelProposal() }},
 }
 
 func fundingWith(p *channel.Params, st *channel.State) *client.VirtualChannelFundingProposalMsg {
@@ -272,6 +330,22 @@ func fundingWith(p *channel.Params, st *channel.State) *client.VirtualChannelFun
 		IndexMap:         []channel.Index{0, 1}}
 }
 
+// otherState: a state whose allocation differs from every allocation that is spliced (the
+// other state of a message that carries two).
+func otherState(label string) *channel.State {
+	st := stateWith(allocDim{assets: 2, parts: 3}.real())
+	st.ID = cat.ID32("limit/" + label)
+	return st
+}
+
+func updateWith(st *channel.State) client.ChannelUpdateMsg {
+	return client.ChannelUpdateMsg{ChannelUpdate: client.ChannelUpdate{State: st, ActorIdx: 1}, Sig: cat.Sig("limit/upd")}
+}
+
+func signedWith(p *channel.Params, st *channel.State) channel.SignedState {
+	return channel.SignedState{Params: p, State: st, Sigs: make([]wallet.Sig, st.NumParts())}
+}
+
 // container wraps an allocation into an outer encoding for one decoder kind.
 type container struct {
 	name    string
@@ -279,6 +353,9 @@ type container struct {
 	ser     cat.Ser // 0: value codec
 	sigTail bool    // the outer encoding ends with a signature mask of ceil(parts/8) bytes
 	wrap    func(a *channel.Allocation) (interface{}, wire.Msg)
+	// pb finds the allocation in the parsed protobuf envelope, and the list of signature slots
+	// (one per participant) that has to grow with it, if there is one.
+	pb func(env *protobuf.Envelope) (*protobuf.Allocation, *[][]byte)
 }
 
 func (ct container) encode(a *channel.Allocation) ([]byte, error) {
@@ -296,16 +373,57 @@ func allocContainers(ser cat.Ser) []container {
 	cs := []container{
 		{name: "ChannelUpdateMsg.state.allocation", kind: kind, ser: ser, wrap: func(a *channel.Allocation) (interface{}, wire.Msg) {
 			return nil, &client.ChannelUpdateMsg{ChannelUpdate: client.ChannelUpdate{State: stateWith(a), ActorIdx: 1}, Sig: cat.Sig("limit/upd")}
+		}, pb: func(env *protobuf.Envelope) (*protobuf.Allocation, *[][]byte) {
+			return env.GetChannelUpdateMsg().GetChannelUpdate().GetState().GetAllocation(), nil
 		}},
 		{name: "ChannelSyncMsg.current_tx.state.allocation", kind: kind, ser: ser, sigTail: true, wrap: func(a *channel.Allocation) (interface{}, wire.Msg) {
 			st := stateWith(a)
 			return nil, &client.ChannelSyncMsg{Phase: 3, CurrentTX: channel.Transaction{State: st, Sigs: make([]wallet.Sig, st.NumParts())}}
+		}, pb: func(env *protobuf.Envelope) (*protobuf.Allocation, *[][]byte) {
+			tx := env.GetChannelSyncMsg().GetCurrentTx()
+			return tx.GetState().GetAllocation(), &tx.Sigs
 		}},
 		{name: "VirtualChannelFundingProposalMsg.initial.state.allocation", kind: kind, ser: ser, sigTail: true, wrap: func(a *channel.Allocation) (interface{}, wire.Msg) {
 			return nil, fundingWith(paramsWith(realParts(2), 32), stateWith(a))
+		}, pb: func(env *protobuf.Envelope) (*protobuf.Allocation, *[][]byte) {
+			in := env.GetVirtualChannelFundingProposalMsg().GetInitial()
+			return in.GetState().GetAllocation(), &in.Sigs
 		}},
 		{name: "LedgerChannelProposalMsg.init_bals", kind: kind, ser: ser, wrap: func(a *channel.Allocation) (interface{}, wire.Msg) {
 			return nil, proposalWith(a, channel.Balances{{big.NewInt(7), big.NewInt(9)}}, realPeers(2))
+		}, pb: func(env *protobuf.Envelope) (*protobuf.Allocation, *[][]byte) {
+			return env.GetLedgerChannelProposalMsg().GetBaseChannelProposal().GetInitBals(), nil
+		}},
+		// the remaining places of an allocation in a message: the parent's update inside the two
+		// virtual channel messages, the final state of a settlement, the other two proposals
+		{name: "VirtualChannelFundingProposalMsg.channel_update.state.allocation", kind: kind, ser: ser, wrap: func(a *channel.Allocation) (interface{}, wire.Msg) {
+			return nil, &client.VirtualChannelFundingProposalMsg{ChannelUpdateMsg: updateWith(stateWith(a)),
+				Initial: signedWith(paramsWith(realParts(3), 32), otherState("initial")), IndexMap: []channel.Index{0, 1, 2}}
+		}, pb: func(env *protobuf.Envelope) (*protobuf.Allocation, *[][]byte) {
+			return env.GetVirtualChannelFundingProposalMsg().GetChannelUpdateMsg().GetChannelUpdate().GetState().GetAllocation(), nil
+		}},
+		{name: "VirtualChannelSettlementProposalMsg.channel_update.state.allocation", kind: kind, ser: ser, wrap: func(a *channel.Allocation) (interface{}, wire.Msg) {
+			return nil, &client.VirtualChannelSettlementProposalMsg{ChannelUpdateMsg: updateWith(stateWith(a)),
+				Final: signedWith(paramsWith(realParts(3), 32), otherState("final"))}
+		}, pb: func(env *protobuf.Envelope) (*protobuf.Allocation, *[][]byte) {
+			return env.GetVirtualChannelSettlementProposalMsg().GetChannelUpdateMsg().GetChannelUpdate().GetState().GetAllocation(), nil
+		}},
+		{name: "VirtualChannelSettlementProposalMsg.final.state.allocation", kind: kind, ser: ser, sigTail: true, wrap: func(a *channel.Allocation) (interface{}, wire.Msg) {
+			return nil, &client.VirtualChannelSettlementProposalMsg{ChannelUpdateMsg: updateWith(otherState("parent")),
+				Final: signedWith(paramsWith(realParts(2), 32), stateWith(a))}
+		}, pb: func(env *protobuf.Envelope) (*protobuf.Allocation, *[][]byte) {
+			fin := env.GetVirtualChannelSettlementProposalMsg().GetFinal()
+			return fin.GetState().GetAllocation(), &fin.Sigs
+		}},
+		{name: "SubChannelProposalMsg.init_bals", kind: kind, ser: ser, wrap: func(a *channel.Allocation) (interface{}, wire.Msg) {
+			return nil, subProposalWith(a, channel.Balances{{big.NewInt(7), big.NewInt(9)}})
+		}, pb: func(env *protobuf.Envelope) (*protobuf.Allocation, *[][]byte) {
+			return env.GetSubChannelProposalMsg().GetBaseChannelProposal().GetInitBals(), nil
+		}},
+		{name: "VirtualChannelProposalMsg.init_bals", kind: kind, ser: ser, wrap: func(a *channel.Allocation) (interface{}, wire.Msg) {
+			return nil, virtualProposalWith(a, channel.Balances{{big.NewInt(7), big.NewInt(9)}})
+		}, pb: func(env *protobuf.Envelope) (*protobuf.Allocation, *[][]byte) {
+			return env.GetVirtualChannelProposalMsg().GetBaseChannelProposal().GetInitBals(), nil
 		}},
 	}
 	if ser == cat.Native {
@@ -404,27 +522,15 @@ func pbAllocCase(ct container, d allocDim, within bool) ([]byte, int, error) {
 	if err != nil {
 		return nil, 0, err
 	}
-	var al *protobuf.Allocation
-	switch {
-	case env.GetChannelUpdateMsg() != nil:
-		al = env.GetChannelUpdateMsg().GetChannelUpdate().GetState().GetAllocation()
-	case env.GetChannelSyncMsg() != nil:
-		al = env.GetChannelSyncMsg().GetCurrentTx().GetState().GetAllocation()
-		if grow == "parts" {
-			tx := env.GetChannelSyncMsg().GetCurrentTx()
-			tx.Sigs = append(tx.Sigs, []byte{})
-		}
-	case env.GetVirtualChannelFundingProposalMsg() != nil:
-		al = env.GetVirtualChannelFundingProposalMsg().GetInitial().GetState().GetAllocation()
-		if grow == "parts" {
-			in := env.GetVirtualChannelFundingProposalMsg().GetInitial()
-			in.Sigs = append(in.Sigs, []byte{})
-		}
-	case env.GetLedgerChannelProposalMsg() != nil:
-		al = env.GetLedgerChannelProposalMsg().GetBaseChannelProposal().GetInitBals()
+	if ct.pb == nil {
+		return nil, 0, fmt.Errorf("HARNESS: container %s has no protobuf path", ct.name)
 	}
+	al, sigs := ct.pb(env)
 	if al == nil {
 		return nil, 0, fmt.Errorf("HARNESS: no allocation in the parsed tree")
+	}
+	if grow == "parts" && sigs != nil {
+		*sigs = append(*sigs, []byte{})
 	}
 	one := []byte{1}
 	switch grow {
@@ -443,9 +549,9 @@ func pbAllocCase(ct container, d allocDim, within bool) ([]byte, int, error) {
 	case "locked":
 		al.Locked = append(al.Locked, proto.Clone(al.Locked[len(al.Locked)-1]).(*protobuf.SubAlloc))
 	case "bal":
-		al.Balances.Balances[0].Balance[0] = intBytes(d.balLen)
+		al.Balances.Balances[0].Balance[0] = d.bal(0, 0)
 	case "subbal":
-		al.Locked[0].Bals.Balance[0] = intBytes(d.subBalLen)
+		al.Locked[0].Bals.Balance[0] = d.subBal(0, 0)
 	default:
 		return nil, 0, fmt.Errorf("HARNESS: nothing to grow")
 	}
@@ -487,6 +593,20 @@ func limitCases() []limitCase {
 				pair(ct.name+"."+dm.limit, ct.kind, "Allocation."+dm.limit,
 					func() ([]byte, int, error) { return f(ct, dm.at, true) },
 					func() ([]byte, int, error) { return f(ct, dm.over, false) })
+				// the integer dimensions again with the other first bytes
+				if dm.at.balLen == 0 && dm.at.subBalLen == 0 {
+					continue
+				}
+				for _, fb := range firstBytes {
+					fb, d := fb, dm.at
+					if fb.over {
+						d = dm.over
+					}
+					d.balTop, d.subBalTop = fb.top, fb.top
+					suffix, expect := topSuffix(fb.over, fb.top)
+					add(ct.name+"."+dm.limit, suffix, ct.kind, "Allocation."+dm.limit, expect,
+						func() ([]byte, int, error) { return f(ct, d, !fb.over) })
+				}
 			}
 		}
 	}
@@ -501,72 +621,116 @@ func limitCases() []limitCase {
 		{"balance-bytes", allocDim{assets: 1, parts: 2, balLen: limBigInt}, allocDim{assets: 1, parts: 2, balLen: limBigInt + 1}},
 		{"balance-bytes-255", allocDim{assets: 1, parts: 2, balLen: limBigInt}, allocDim{assets: 1, parts: 2, balLen: 255}},
 	}
+	// balAt / balOver: the balances dm.at from the real encoder (checked against the hand
+	// encoder), dm.over from the hand encoder (after the same check at the limit)
+	balAt := func(at allocDim) ([]byte, int, error) {
+		r, err := encodeNative(at.realBalances())
+		if err == nil && !bytes.Equal(r, hand(at.handBalances)) {
+			err = fmt.Errorf("HARNESS: hand encoder disagrees with the real encoder at the limit")
+		}
+		return r, 0, err
+	}
+	balOver := func(at, over allocDim) ([]byte, int, error) {
+		if _, _, err := balAt(at); err != nil {
+			return nil, 0, err
+		}
+		return hand(over.handBalances), 0, nil
+	}
+	// funding agreement of a proposal (distinct values 7, 9 mark the small one)
+	smallFA := channel.Balances{{big.NewInt(7), big.NewInt(9)}}
+	smallFAEnc := hand(func(e *enc) { e.u16(1); e.u16(2); e.bigint([]byte{7}); e.bigint([]byte{9}) })
+	faInit := allocDim{assets: 1, parts: 2}
+	faNativeAt := func(pk int, at allocDim) ([]byte, int, error) {
+		r, err := encodeEnv(cat.Native, proposalKinds[pk].mk(faInit.real(), at.realBalances()))
+		return r, 0, err
+	}
+	faNativeOver := func(pk int, at, over allocDim) ([]byte, int, error) {
+		small, err := encodeEnv(cat.Native, proposalKinds[pk].mk(faInit.real(), smallFA))
+		if err != nil {
+			return nil, 0, err
+		}
+		atEnc, _, err := faNativeAt(pk, at)
+		if err != nil {
+			return nil, 0, err
+		}
+		if h, _, err := splice(small, smallFAEnc, hand(at.handBalances)); err != nil || !bytes.Equal(h, atEnc) {
+			return nil, 0, fmt.Errorf("HARNESS: spliced hand encoding disagrees with the real encoder at the limit (%v)", err)
+		}
+		return splice(small, smallFAEnc, hand(over.handBalances))
+	}
+	faPBAt := func(pk int, at allocDim) ([]byte, int, error) {
+		r, err := encodeEnv(cat.Protobuf, proposalKinds[pk].mk(faInit.real(), at.realBalances()))
+		return r, 2, err
+	}
+	faPBOver := func(pk int, at, over allocDim) ([]byte, int, error) {
+		atEnc, _, err := faPBAt(pk, at)
+		if err != nil {
+			return nil, 0, err
+		}
+		env, err := pbDecodeSeed(atEnc)
+		if err != nil {
+			return nil, 0, err
+		}
+		fa := proposalKinds[pk].pbBase(env).GetFundingAgreement()
+		if fa == nil {
+			return nil, 0, fmt.Errorf("HARNESS: no funding agreement in the parsed tree")
+		}
+		switch {
+		case over.assets > limAssets:
+			fa.Balances = append(fa.Balances, proto.Clone(fa.Balances[0]).(*protobuf.Balance))
+		case over.parts > limParts:
+			fa.Balances[0].Balance = append(fa.Balances[0].Balance, []byte{1})
+		default:
+			fa.Balances[0].Balance[0] = over.bal(0, 0)
+		}
+		in, err := pbFrame(env)
+		return in, 2, err
+	}
 	for _, dm := range balDims {
 		dm := dm
 		bsite := "Balances." + strings.TrimSuffix(dm.limit, "-255")
-		pair("Balances."+dm.limit, "value:channel.Balances", bsite,
-			func() ([]byte, int, error) {
-				r, err := encodeNative(dm.at.realBalances())
-				if err == nil && !bytes.Equal(r, hand(dm.at.handBalances)) {
-					err = fmt.Errorf("HARNESS: hand encoder disagrees with the real encoder at the limit")
+		// variants: the basic pair, and for the integer dimension the other first bytes
+		type variant struct {
+			suffixAt, suffixOver string // "" = no such case
+			at, over             allocDim
+		}
+		vs := []variant{{"@limit", "@limit+1", dm.at, dm.over}}
+		if dm.limit == "balance-bytes" {
+			for _, fb := range firstBytes {
+				at, over := dm.at, dm.over
+				at.balTop, over.balTop = fb.top, fb.top
+				suffix, _ := topSuffix(fb.over, fb.top)
+				if fb.over {
+					vs = append(vs, variant{"", suffix, at, over})
+				} else {
+					vs = append(vs, variant{suffix, "", at, over})
 				}
-				return r, 0, err
-			},
-			func() ([]byte, int, error) {
-				if r, err := encodeNative(dm.at.realBalances()); err != nil || !bytes.Equal(r, hand(dm.at.handBalances)) {
-					return nil, 0, fmt.Errorf("HARNESS: hand encoder disagrees with the real encoder at the limit (%v)", err)
+			}
+		}
+		for _, v := range vs {
+			v := v
+			cases := func(path, kind string, at, over func() ([]byte, int, error)) {
+				if v.suffixAt != "" {
+					add(path, v.suffixAt, kind, bsite, "accept", at)
 				}
-				return hand(dm.over.handBalances), 0, nil
-			})
-		// funding agreement of a ledger channel proposal (distinct values 7, 9 mark the small one)
-		smallFA := channel.Balances{{big.NewInt(7), big.NewInt(9)}}
-		smallFAEnc := hand(func(e *enc) { e.u16(1); e.u16(2); e.bigint([]byte{7}); e.bigint([]byte{9}) })
-		init := allocDim{assets: 1, parts: 2}
-		pair("LedgerChannelProposalMsg.funding_agreement."+dm.limit, "native-envelope", bsite,
-			func() ([]byte, int, error) {
-				r, err := encodeEnv(cat.Native, proposalWith(init.real(), dm.at.realBalances(), realPeers(2)))
-				return r, 0, err
-			},
-			func() ([]byte, int, error) {
-				small, err := encodeEnv(cat.Native, proposalWith(init.real(), smallFA, realPeers(2)))
-				if err != nil {
-					return nil, 0, err
+				if v.suffixOver != "" {
+					add(path, v.suffixOver, kind, bsite, "reject", over)
 				}
-				at, err := encodeEnv(cat.Native, proposalWith(init.real(), dm.at.realBalances(), realPeers(2)))
-				if err != nil {
-					return nil, 0, err
-				}
-				if h, _, err := splice(small, smallFAEnc, hand(dm.at.handBalances)); err != nil || !bytes.Equal(h, at) {
-					return nil, 0, fmt.Errorf("HARNESS: spliced hand encoding disagrees with the real encoder at the limit (%v)", err)
-				}
-				return splice(small, smallFAEnc, hand(dm.over.handBalances))
-			})
-		pair("LedgerChannelProposalMsg.funding_agreement."+dm.limit, "protobuf-envelope", bsite,
-			func() ([]byte, int, error) {
-				r, err := encodeEnv(cat.Protobuf, proposalWith(init.real(), dm.at.realBalances(), realPeers(2)))
-				return r, 2, err
-			},
-			func() ([]byte, int, error) {
-				at, err := encodeEnv(cat.Protobuf, proposalWith(init.real(), dm.at.realBalances(), realPeers(2)))
-				if err != nil {
-					return nil, 0, err
-				}
-				env, err := pbDecodeSeed(at)
-				if err != nil {
-					return nil, 0, err
-				}
-				fa := env.GetLedgerChannelProposalMsg().GetBaseChannelProposal().GetFundingAgreement()
-				switch {
-				case dm.over.assets > limAssets:
-					fa.Balances = append(fa.Balances, proto.Clone(fa.Balances[0]).(*protobuf.Balance))
-				case dm.over.parts > limParts:
-					fa.Balances[0].Balance = append(fa.Balances[0].Balance, []byte{1})
-				default:
-					fa.Balances[0].Balance[0] = intBytes(dm.over.balLen)
-				}
-				in, err := pbFrame(env)
-				return in, 2, err
-			})
+			}
+			cases("Balances."+dm.limit, "value:channel.Balances",
+				func() ([]byte, int, error) { return balAt(v.at) },
+				func() ([]byte, int, error) { return balOver(v.at, v.over) })
+			for pk := range proposalKinds {
+				pk := pk
+				path := proposalKinds[pk].name + ".funding_agreement." + dm.limit
+				cases(path, "native-envelope",
+					func() ([]byte, int, error) { return faNativeAt(pk, v.at) },
+					func() ([]byte, int, error) { return faNativeOver(pk, v.at, v.over) })
+				cases(path, "protobuf-envelope",
+					func() ([]byte, int, error) { return faPBAt(pk, v.at) },
+					func() ([]byte, int, error) { return faPBOver(pk, v.at, v.over) })
+			}
+		}
 	}
 
 	// big integers on their own
@@ -581,6 +745,21 @@ func limitCases() []limitCase {
 				return r, 0, err
 			},
 			func() ([]byte, int, error) { return hand(func(e *enc) { e.bigint(intBytes(n)) }), 0, nil })
+	}
+	for _, fb := range firstBytes {
+		fb := fb
+		suffix, expect := topSuffix(fb.over, fb.top)
+		add("BigInt.bytes", suffix, "value:perunio.BigInt", "BigInt.integer-bytes", expect, func() ([]byte, int, error) {
+			h := hand(func(e *enc) { e.bigint(intBytesTop(limBigInt, fb.top)) })
+			r, err := encodeNative(perunio.BigInt{Int: new(big.Int).SetBytes(intBytesTop(limBigInt, fb.top))})
+			if err != nil || !bytes.Equal(r, h) {
+				return nil, 0, fmt.Errorf("HARNESS: hand encoder disagrees with the real encoder at the limit (%v)", err)
+			}
+			if fb.over {
+				return hand(func(e *enc) { e.bigint(intBytesTop(limBigInt+1, fb.top)) }), 0, nil
+			}
+			return r, 0, nil
+		})
 	}
 
 	// sub-allocation value: number of balances (one per asset)
@@ -604,6 +783,22 @@ func limitCases() []limitCase {
 	pair("SubAlloc.balance-bytes", "value:channel.SubAlloc", "SubAlloc.balance-bytes",
 		func() ([]byte, int, error) { r, err := encodeNative(*bd.realSub(0, 2)); return r, 34, err },
 		func() ([]byte, int, error) { return hand(func(e *enc) { bo.handSub(e, 0, 2) }), 34, nil })
+	for _, fb := range firstBytes {
+		fb := fb
+		suffix, expect := topSuffix(fb.over, fb.top)
+		add("SubAlloc.balance-bytes", suffix, "value:channel.SubAlloc", "SubAlloc.balance-bytes", expect, func() ([]byte, int, error) {
+			at, over := bd, bo
+			at.subBalTop, over.subBalTop = fb.top, fb.top
+			r, err := encodeNative(*at.realSub(0, 2))
+			if err != nil || !bytes.Equal(r, hand(func(e *enc) { at.handSub(e, 0, 2) })) {
+				return nil, 0, fmt.Errorf("HARNESS: hand encoder disagrees with the real encoder at the limit (%v)", err)
+			}
+			if fb.over {
+				return hand(func(e *enc) { over.handSub(e, 0, 2) }), 34, nil
+			}
+			return r, 34, nil
+		})
+	}
 
 	// channel parameters: participants and nonce length; as a value, and inside the signed
 	// state of a virtual channel funding proposal (native and protobuf)
@@ -642,6 +837,12 @@ func limitCases() []limitCase {
 	pair("Params.nonce", "value:channel.Params", "Params.nonce-bytes",
 		func() ([]byte, int, error) { r, err := encodeNative(paramsWith(realParts(2), limNonce)); return r, 8, err },
 		func() ([]byte, int, error) { r, err := encodeNative(paramsWith(realParts(2), limNonce+1)); return r, 8, err })
+	settleWrap := func(s cat.Ser) func(p *channel.Params) ([]byte, error) {
+		return func(p *channel.Params) ([]byte, error) {
+			return encodeEnv(s, &client.VirtualChannelSettlementProposalMsg{ChannelUpdateMsg: updateWith(otherState("parent")),
+				Final: signedWith(p, stateWith(allocDim{assets: 1, parts: 2}.real()))})
+		}
+	}
 	for _, s := range cat.Sers {
 		s := s
 		off := 0
@@ -651,6 +852,31 @@ func limitCases() []limitCase {
 		pair("VirtualChannelFundingProposalMsg.initial.params.nonce", s.String()+"-envelope", "Params.nonce-bytes",
 			func() ([]byte, int, error) { r, err := fundWrap(s)(paramsWith(realParts(2), limNonce)); return r, off, err },
 			func() ([]byte, int, error) { r, err := fundWrap(s)(paramsWith(realParts(2), limNonce+1)); return r, off, err })
+		pair("VirtualChannelSettlementProposalMsg.final.params.nonce", s.String()+"-envelope", "Params.nonce-bytes",
+			func() ([]byte, int, error) { r, err := settleWrap(s)(paramsWith(realParts(2), limNonce)); return r, off, err },
+			func() ([]byte, int, error) { r, err := settleWrap(s)(paramsWith(realParts(2), limNonce+1)); return r, off, err })
+	}
+	// the nonce again with the other first bytes, in every place
+	for _, fb := range firstBytes {
+		fb := fb
+		n := limNonce
+		if fb.over {
+			n++
+		}
+		suffix, expect := topSuffix(fb.over, fb.top)
+		add("Params.nonce", suffix, "value:channel.Params", "Params.nonce-bytes", expect,
+			func() ([]byte, int, error) { r, err := encodeNative(paramsWithTop(realParts(2), n, fb.top)); return r, 8, err })
+		for _, s := range cat.Sers {
+			s := s
+			off := 0
+			if s == cat.Protobuf {
+				off = 2
+			}
+			add("VirtualChannelFundingProposalMsg.initial.params.nonce", suffix, s.String()+"-envelope", "Params.nonce-bytes", expect,
+				func() ([]byte, int, error) { r, err := fundWrap(s)(paramsWithTop(realParts(2), n, fb.top)); return r, off, err })
+			add("VirtualChannelSettlementProposalMsg.final.params.nonce", suffix, s.String()+"-envelope", "Params.nonce-bytes", expect,
+				func() ([]byte, int, error) { r, err := settleWrap(s)(paramsWithTop(realParts(2), n, fb.top)); return r, off, err })
+		}
 	}
 	// protobuf: 1025 full participants do not fit a 64 KiB frame; 1025 participants without
 	// address do (no positive control: the real encoder cannot express 1024 either)
